@@ -1647,6 +1647,17 @@ func (v *FV) convert(fr *Frame, st *State, in *ssa.Convert) {
 		v.setVal(fr, in, x.T)
 	case isString(to) || isString(from):
 		// string <-> []byte / []rune / integer: fresh value with equal length where it applies
+		if isString(to) && x.Sort == "Slice" {
+			if sl, ok := from.Underlying().(*types.Slice); ok {
+				if b, ok := sl.Elem().Underlying().(*types.Basic); ok && b.Kind() == types.Uint8 {
+					// string(b): determined by the slice header and the contents of its backing array
+					x.Ty = from
+					tv := v.setVal(fr, in, v.bytesToStr(st.snap, x))
+					v.assume(st.reach, fmt.Sprintf("(= (str_len %s) (sl_len %s))", tv.T, x.T))
+					return
+				}
+			}
+		}
 		tv := v.freshVal(fr, in, st)
 		if isString(to) && x.Sort == "Slice" {
 			v.assume(st.reach, fmt.Sprintf("(= (str_len %s) (sl_len %s))", tv.T, x.T))
@@ -1664,6 +1675,17 @@ func (v *FV) convert(fr *Frame, st *State, in *ssa.Convert) {
 		}
 		fail("convert %v -> %v", from, to)
 	}
+}
+
+// bytesToStr: the string value of a []byte in heap s (an uninterpreted function of the slice header
+// and of the contents of the backing array: equal inputs give equal strings, nothing else is known).
+func (v *FV) bytesToStr(s *Snapshot, x TV) Term {
+	sl := x.Ty.Underlying().(*types.Slice)
+	arr := v.elemArray(sl.Elem())
+	es := v.sortOf(sl.Elem())
+	v.sortOf(types.Typ[types.String])
+	v.pre("fn b2s", fmt.Sprintf("(declare-fun b2s (Slice (Array %s %s)) Str)", v.idx(), es))
+	return fmt.Sprintf("(b2s %s %s)", x.T, v.rd(s, arr, v.arrOf(x.T)))
 }
 
 func (v *FV) typeAssert(fr *Frame, st *State, in *ssa.TypeAssert) {
